@@ -32,6 +32,13 @@ def model_type(em, name, nn):
             em.used_records['M_empty_tag'] = ('modelx', 'std::integer_sequence<...>')
         em.lowerings['M-tag(std::integer_sequence)'] += 1
         return 'struct M_empty_tag'
+    if re.match(r'^(chrono::)?(time_point<|duration<|nanoseconds$|[a-z_]*clock::time_point$|[a-z_]*clock::duration$)', nn):
+        # M-chrono: time points and durations as opaque tick counts
+        em.lowerings['M-chrono(type -> long)'] += 1
+        return ('c', 'long', frozenset())
+    if re.match(r'^vector<rlbox_transition_timing', nn):
+        em.lowerings['M-vec(transition_times: opaque, push_back is a recording stub)'] += 1
+        return 'struct M_vec_timing'
     if nn in ('shared_timed_mutex', 'mutex', 'shared_mutex'):
         em.lowerings['M-lock(type)'] += 1
         return 'struct M_lock'
@@ -254,6 +261,9 @@ def _is_std_array(em, e):
 
 
 def operator_call(em, n, rd, args):
+    if rd.get('name') == 'operator-' and len(args) == 2 and re.match(r'^(chrono::)?(time_point<|duration<)', _obj_norm(em, args[0])):
+        em.lowerings['M-chrono(operator-)'] += 1
+        return '((%s) - (%s))' % (em.E(args[0]), em.E(args[1]))
     if rd.get('name') == 'operator()' and args:
         st = _param_stub(em, args[0])
         if st is not None:
@@ -313,6 +323,13 @@ def member_call(em, n, callee, obj, args, rd):
     nm = callee.get('name')
     on = _obj_norm(em, obj)
     o = em.E(obj) if not callee.get('isArrow') else '(*%s)' % em.E(obj)
+    if re.match(r'^(chrono::)?duration<', on) and nm == 'count' and not args:
+        em.lowerings['M-chrono(duration::count)'] += 1
+        return '(%s)' % o
+    if on.startswith('vector<rlbox_transition_timing') and nm == 'push_back' and len(args) == 1:
+        em.lowerings['M-vec(transition_times.push_back -> recording stub)'] += 1
+        rt = em.cdecl(em.ctype_of(T.type_str(T.strip_quals(T.strip_ref(T.parse(qt(args[0])))))))
+        return '({ %s __rec = %s; vstd_timing_push((void *)&(%s), (int)__rec.invoke, __rec.name, __rec.ptr, (long)__rec.time); })' % (rt, em.E(args[0]), o)
     if on.startswith('atomic<'):
         # M-atomic: sequential reading of std::atomic (DESIGN.md 3.1); C14/C18 state the consequence
         em.lowerings['M-atomic(%s)' % nm] += 1
@@ -362,6 +379,11 @@ def member_call(em, n, callee, obj, args, rd):
             return 'vec_erase_range(&(%s), (%s).idx, (%s).idx)' % (o, em.E(args[0]), em.E(args[1]))
         raise ExtractError('unmodelled std::vector member ' + str(nm))
     mcn = _is_map(em, obj)
+    if mcn == 'M_map_str_voidp' and nm == 'clear' and not args:
+        # the opaque view of std::map<std::string, void*> (units that do not reason about the symbol caches)
+        em.lowerings['M-map(clear on the opaque string map)'] += 1
+        em.extern_funcs['vstd_opaque_map_clear'] = True
+        return 'vstd_opaque_map_clear(&(%s))' % o
     if mcn and 'opaque' in (em.struct_defs.get(mcn) or ''):
         raise ExtractError('operation %s on an opaque (wide-key) map model' % nm)
     if mcn:
@@ -375,6 +397,9 @@ def member_call(em, n, callee, obj, args, rd):
         if nm == 'erase' and len(args) == 1:
             a_ = em.E(args[0])
             return '((%s).m->present[(%s).idx] = 0)' % (a_, a_)
+        if nm == 'clear' and not args:
+            # an empty map: no key present (val[] of absent keys is never read); a struct assignment stays inside the map object
+            return '((%s) = (struct %s){ { 0 }, { 0 } })' % (o, mcn)
         raise ExtractError('unmodelled std::map member ' + str(nm))
     hook = em.opts.get('member_call_extra')
     if hook:
